@@ -38,11 +38,11 @@ def _serialize_ds9(regions, precision=8):
         if data is not None:  # None if the region cannot be serialized
             region_data.append(data)
 
-    if not region_data:
-        return ''
-
     # ds9 file header
     output = '# Region file format: DS9 astropy/regions\n'
+
+    if not region_data:
+        return output  # nothing could be serialized; a valid empty file
 
     # extract common region metadata and place in the global metadata
     all_meta = []
